@@ -31,12 +31,36 @@ ROUND5 = [
         (J + "models/base.py", "        s = \"\".join(c for c in s if (\"_\" + c).isidentifier())\n",
          "        kept = [c for c in s if (\"_\" + c).isidentifier()]\n        s = \"\".join(kept)\n"),
     ]),
-    ("nested_reserved_first", "the classes nested in the body are reserved before the children of the model", [
+    ("descendants_recursive", "the models below a class are collected by recursion instead of a work list", [
         (J + "models/base.py",
-         "        for ptr in gen.model.child_pointers:\n            gen.reserve_field_name(ptr.type.name)\n        for nested_gen, _ in nested_generators:\n"
-         "            # (a class can also be nested here without being a child: one that several children share)\n            gen.reserve_field_name(nested_gen.model.name)\n",
-         "        for nested_gen, _ in nested_generators:\n"
-         "            # (a class can also be nested here without being a child: one that several children share)\n            gen.reserve_field_name(nested_gen.model.name)\n"
-         "        for ptr in gen.model.child_pointers:\n            gen.reserve_field_name(ptr.type.name)\n"),
+         "    found: Dict[str, ModelMeta] = {}\n    queue = [model]\n    while queue:\n        for ptr in queue.pop().child_pointers:\n"
+         "            child = ptr.type\n            if child.index != model.index and child.index not in found:\n"
+         "                found[child.index] = child\n                queue.append(child)\n    return sorted(found.values(), key=lambda m: m.index)\n",
+         "    found: Dict[str, ModelMeta] = {}\n\n    def visit(current: ModelMeta):\n        for ptr in current.child_pointers:\n"
+         "            child = ptr.type\n            if child.index != model.index and child.index not in found:\n"
+         "                found[child.index] = child\n                visit(child)\n\n    visit(model)\n    return sorted(found.values(), key=lambda m: m.index)\n"),
+    ]),
+    ("int_fold_single_test", "every int is dropped next to float by a comprehension under one test", [
+        (J + "generator.py", "        if float in other_types:\n            # int can be listed more than once (directly and taken out of an Optional member)\n"
+                              "            while int in other_types:\n                other_types.remove(int)\n",
+         "        if float in other_types and int in other_types:\n            while int in other_types:\n                other_types.remove(int)\n"),
+    ]),
+    ("literals_united_by_helper", "the literals of a union are united by a helper method", [
+        (J + "generator.py", "            literal = self.optimize_type(DUnion(*literal_types).types[0])\n",
+         "            literal = self._unite_literals(literal_types)\n"),
+        (J + "generator.py", "    def _optimize_union(self, t: DUnion):\n",
+         "    def _unite_literals(self, literal_types):\n        united = DUnion(*literal_types).types[0]\n        return self.optimize_type(united)\n\n"
+         "    def _optimize_union(self, t: DUnion):\n"),
+    ]),
+    ("union_members_iterative", "the members of a union are flattened with an explicit stack", [
+        (J + "generator.py", "        for item in types:\n            if isinstance(item, DOptional):\n                yield Null\n                item = item.type\n"
+                              "            if isinstance(item, DUnion):\n                yield from cls._union_members(item.types)\n            else:\n                yield item\n",
+         "        stack = list(reversed(list(types)))\n        while stack:\n            item = stack.pop()\n            if isinstance(item, DOptional):\n"
+         "                yield Null\n                item = item.type\n            if isinstance(item, DUnion):\n                stack.extend(reversed(item.types))\n"
+         "            else:\n                yield item\n"),
+    ]),
+    ("null_removed_by_filter", "null members are taken out of the candidates with a comprehension", [
+        (J + "generator.py", "                while Null in types:\n                    types.remove(Null)\n",
+         "                types = [x for x in types if x is not Null]\n"),
     ]),
 ]
